@@ -5,7 +5,7 @@ from .common import *
 
 ARTEFACTS = ["G1-consts", "G2-rs-portable"]
 RULE = ("prefix . reset . suffix histories: prefixes contain partial chunks, deep stacks (2^k+1 chunks), hazmat offsets, finalize "
-        "calls; after reset the same suffix is run on the reset hasher and on a fresh one of the same mode and every output compared "
+        "calls; the reset is Hasher::reset or, through the trait impls, Reset::reset / finalize_fixed_reset / finalize_xof_reset; after reset the same suffix is run on the reset hasher and on a fresh one of the same mode and every output compared "
         "(and both with the model/spec); clone-then-diverge histories; non-trivial = prefix absorbed input or set an offset; "
         "distinct = distinct script")
 ASSUMPTIONS = []
@@ -42,7 +42,8 @@ def reset_script(rng, plat):
         ops.append("H cvnr a")
     elif kind == "fin":
         ops += [f"H upd a {pat(3000, rng)}", "H fin a", "H xof a x", "X fill x 10"]
-    ops.append("H reset a")
+    # Hasher::reset itself, or one of the ways the trait impls (src/traits.rs) reach it
+    ops += rng.choice([["H reset a"], ["H reset a"], ["T reset a"], ["T finr a"], ["T xofr a y", "T read y 40"]]) if kind not in ("offset", "offset-input") else ["H reset a"]
     # the same suffix on the reset hasher and on a fresh one: the ops are deterministic given the seed, so
     # generate once and rename
     st = rng.getstate()
